@@ -34,6 +34,8 @@ type Solver struct {
 	declUFs   map[string]bool
 	stack     []*Term // asserted path-condition prefix, one push level each
 	TimeoutMs int
+	curTO     int
+	FeasMs    int // timeout for feasibility (branch) queries; unknown there is harmless
 	Log       io.Writer
 
 	NSat, NUnsat, NUnknown int
@@ -56,11 +58,9 @@ func solverArgv(kind string, timeoutMs int) []string {
 }
 
 func NewSolver(kind string, tt *TermTable, timeoutMs int) (*Solver, error) {
-	s := &Solver{Kind: kind, tt: tt, TimeoutMs: timeoutMs}
-	if err := s.start(); err != nil {
-		return nil, err
-	}
-	return s, nil
+	s := &Solver{Kind: kind, tt: tt, TimeoutMs: timeoutMs,
+		emitted: map[int]bool{}, declVars: map[string]bool{}, declUFs: map[string]bool{}}
+	return s, nil // the process is started lazily, at the first query
 }
 
 func (s *Solver) start() error {
@@ -88,6 +88,7 @@ func (s *Solver) start() error {
 	s.send("(set-option :produce-models true)")
 	if strings.HasPrefix(s.Kind, "z3") {
 		s.send(fmt.Sprintf("(set-option :timeout %d)", s.TimeoutMs))
+		s.curTO = s.TimeoutMs
 	}
 	s.send("(set-logic ALL)")
 	return nil
@@ -110,6 +111,11 @@ func (s *Solver) restart() {
 }
 
 func (s *Solver) send(line string) {
+	if s.cmd == nil {
+		if err := s.start(); err != nil {
+			panic(err)
+		}
+	}
 	if s.Log != nil {
 		fmt.Fprintln(s.Log, line)
 	}
@@ -139,6 +145,11 @@ func (s *Solver) sync() []string {
 
 // define emits declarations/definitions for t and everything below it.
 func (s *Solver) define(t *Term) {
+	if s.cmd == nil {
+		if err := s.start(); err != nil {
+			panic(err)
+		}
+	}
 	if s.emitted[t.ID] {
 		return
 	}
@@ -205,14 +216,34 @@ func (s *Solver) align(pc []*Term) {
 	}
 }
 
-// Check decides satisfiability of pc ∧ extra.
+// Check decides satisfiability of pc ∧ extra (feasibility query: short timeout).
 func (s *Solver) Check(pc []*Term, extra ...*Term) Result {
+	s.setTimeout(s.FeasMs)
 	r, _ := s.check(pc, extra, nil)
 	return r
 }
 
+func (s *Solver) setTimeout(ms int) {
+	if ms <= 0 || ms > s.TimeoutMs {
+		ms = s.TimeoutMs
+	}
+	if !strings.HasPrefix(s.Kind, "z3") {
+		return
+	}
+	if s.cmd == nil {
+		if err := s.start(); err != nil {
+			panic(err)
+		}
+	}
+	if s.curTO != ms {
+		s.send(fmt.Sprintf("(set-option :timeout %d)", ms))
+		s.curTO = ms
+	}
+}
+
 // CheckModel is Check plus, when sat, the values of the requested terms.
 func (s *Solver) CheckModel(pc []*Term, extra []*Term, want []*Term) (Result, map[int]*big.Int) {
+	s.setTimeout(s.TimeoutMs)
 	return s.check(pc, extra, want)
 }
 
